@@ -1,4 +1,4 @@
-SPECIFICATION GSpec
+SPECIFICATION TSpec
 CONSTANTS
   InChans = {0, 1}
   OutChans = {2, 3}
@@ -6,13 +6,10 @@ CONSTANTS
   Threads = {1, 2}
   MaxBatch = 2
   MaxOps = 1000000
-  MaxCrash = 3
-  MaxFail = 6
+  MaxCrash = 1000000
+  MaxFail = 1000000
   SwitchFaithful = TRUE
   ClosePatient = TRUE
   TrimMayFail = FALSE
-  MaxLen = 60
-  CloseAfter = 25
-  CrashEvery = 15
-INVARIANTS Dump
-CHECK_DEADLOCK FALSE
+INVARIANTS ConformRet ConformDisk ConformMem ConformDown
+CHECK_DEADLOCK TRUE
